@@ -239,6 +239,8 @@ def run(R):
         items.append(("contract", kn, quick))
     R.bounds["kernel_contracts"] = "established from the numba typed IR for arbitrary uint8 data at shapes (nchans, nsamps) in " + \
         ("{(1,1),(2,3),(3,2)}" if quick else "{(1,1),(1,4),(2,3),(3,2),(3,4),(4,2)}") + "; used by the streaming harness at unbounded sizes (stated gap)"
+    from .. import kvalid
+    kvalid.validate(R, ["extract_tim", "extract_bpass", "dedisperse", "compute_online_moments", "compute_online_moments_basic"])
     parts = R.pmap(work, items)
     R.vacuity_witness("c06", sum(p.reached for p in parts) > 0)
     st = build_stream()
